@@ -29,8 +29,8 @@ def stashRest (p : Parser) (s : Bool) : Parser × PullRes :=
   let room := stashSize - p.stash.length
   if b.length ≥ room then ({ p with stash := [] }, .need)
   else match (esccpy room b).1 with
-    | some o => ({ p with stash := p.stash ++ o, sentinel := 0, eolp := p.eolp || s }, .need)
-    | none => ({ p with sentinel := 0, eolp := p.eolp || s }, .need)
+    | some o => ({ p with stash := p.stash ++ o, sentinel := 0, eolp := p.eolp || s, bix := p.buf.length }, .need)
+    | none => ({ p with sentinel := 0, eolp := p.eolp || s, bix := p.buf.length }, .need)
 
 /-- the parser after copying the complete line of raw length `e` to the stash -/
 def takeLine (p : Parser) (e : Nat) : Parser :=
@@ -75,7 +75,8 @@ theorem chop_eq (f : Nat) (p : Parser) :
               match r with
               | some _ => 0
               | none => sent;
-            (({ p with stash := stash', sentinel := sent, eolp := p.eolp || eol.isSome } : Parser),
+            (({ p with stash := stash', sentinel := sent, eolp := p.eolp || eol.isSome,
+                       bix := p.buf.length } : Parser),
               PullRes.need)
         else
           have llen := eol.getD 0;
